@@ -31,6 +31,7 @@ PRELUDE = [
     ("decl", "even", None, ("fn", [("v", "int")], "bool", [("print", ("bin", "+", S("even"), V("v"))), ("return", ("bin", "==", ("bin", "%", V("v"), I(2)), I(0)))]), ()),
     ("decl", "big", None, ("fn", [("v", "int")], "bool", [("return", ("bin", ">", V("v"), V("kcap")))]), ()),
     ("decl", "tostr", None, ("fn", [("v", "int")], "str", [("return", ("bin", "+", S("#"), V("v")))]), ()),
+    ("decl", "first", None, ("fn", [("x", LI)], "int", [("return", ("index", V("x"), I(0)))]), ()),
     ("decl", "shout", None, ("fn", [("v", "str")], "str", [("return", ("bin", "+", V("v"), S("!")))]), ()),
 ]
 
@@ -82,7 +83,7 @@ def cases(draw):
     for step in range(steps):
         ops = [(5, "push"), (2, "remove"), (3, "read"), (3, "assign"), (2, "opassign"), (2, "reverse"), (2, "join"), (1, "clear"),
                (2, "clone"), (2, "alias"), (2, "map"), (2, "filter"), (2, "index_of"), (1, "len"), (2, "eq"), (1, "newlist"), (1, "concat"),
-               (1, "nested"), (1, "optlist"), (1, "newmap")]
+               (2, "nested"), (1, "optlist"), (1, "newmap"), (2, "litfrom")]
         if strs:
             ops += [(2, "strop")]
         if maps:
@@ -152,11 +153,19 @@ def cases(draw):
             boundary |= new_int_list("n%d" % step)
         elif op == "concat":
             stmts.append(("print", ("bin", "+", ("bin", "+", S("e="), ("index", V(l), I(0))), S(";"))))
+        elif op == "litfrom" and len(ints) < 8:
+            # a list literal built from elements of another list must copy the values
+            name = "lf%d" % step
+            other = g.choice(ints)
+            stmts.append(("decl", name, LI, ("list", [("index", V(l), I(0)), I(g.int(0, 9)), ("index", V(other), ("bin", "-", ("mcall", V(other), "len", []), I(1)))]), ()))
+            ints.append(name)
+            alias_pairs += 1
+            g.label("literal-from-elements")
         elif op == "nested":
             if not has_nested:
                 stmts.append(("decl", "ln", ("list", LI), ("list", [("list", [I(1)]), ("list", [I(2), I(3)])]), ()))
                 has_nested = True
-            k = g.choice(["pushlist", "inner", "len"])
+            k = g.choice(["pushlist", "inner", "len", "mapfirst"])
             g.label("nested-list")
             if k == "pushlist":
                 stmts.append(("expr", ("mcall", V("ln"), "push", [V(l)])))
@@ -167,6 +176,12 @@ def cases(draw):
                 stmts.append(("expr", ("mcall", V(name), "push", [I(g.int(20, 29))])))
                 ints.append(name)
                 alias_pairs += 1
+            elif k == "mapfirst":
+                name = "mf%d" % step
+                stmts.append(("decl", name, None, ("mcall", V("ln"), "map", [V("first")]), ()))
+                ints.append(name)
+                alias_pairs += 1
+                g.label("callback-returns-element")
             else:
                 stmts.append(("print", ("mcall", V("ln"), "len", [])))
         elif op == "optlist":
